@@ -138,8 +138,14 @@ where
         if let Some(ref this) = ctx.this {
             Ok(This(T::from_value(this)?))
         } else {
-            let arg = arg_value_from_context(ctx)
-                .map_err(|_| ExecutionError::missing_argument_or_target())?;
+            // Only a missing argument means "no target"; an error raised while evaluating
+            // the argument must surface unchanged.
+            let arg = arg_value_from_context(ctx).map_err(|e| match e {
+                ExecutionError::InvalidArgumentCount { .. } => {
+                    ExecutionError::missing_argument_or_target()
+                }
+                e => e,
+            })?;
             Ok(This(T::from_value(&arg)?))
         }
     }
